@@ -121,12 +121,14 @@ Fixpoint check_n_sequences (x : data) (expected : option (list nat)) (ans ani at
   | Some ed =>                                                  (* branch "I": several inputs *)
       match x with
       | DList items =>
+          if negb (length items =? length ed) then RErr ValueError   (* "Expecting n inputs but received m" (since 7992b77) *)
+          else
           match (fix go (l : list data) (eds : list nat) {struct l} : res (list data) :=
                    match eds with
-                   | [] => ROk l                                (* items beyond n_inputs are left as they are *)
+                   | [] => ROk l                                (* (before 7992b77 items beyond n_inputs were left unchecked) *)
                    | e :: eds' =>
                        match l with
-                       | [] => RErr OtherError                  (* x[i] -> IndexError *)
+                       | [] => RErr OtherError                  (* x[i] -> IndexError (unreachable since 7992b77) *)
                        | it :: r =>
                            match check_n_sequences it (Some [e]) ans ani ats with
                            | RErr err => RErr err
